@@ -34,6 +34,8 @@ TRANSLATORS = [
      ['Gen/UnitsGen1.v', 'Gen/UnitsGen2.v']),
     ('py2v_iso', [sys.executable, os.path.join(TOOLS, 'py2v_iso.py'), REPO_SRC, os.path.join(COQ, 'Gen')],
      ['Gen/IsoGen.v']),
+    ('py2v_modeliso', [sys.executable, os.path.join(TOOLS, 'py2v_modeliso.py'), REPO_SRC, os.path.join(COQ, 'Gen')],
+     ['Gen/ModelIsoGen.v']),
     ('py2v_purity', [sys.executable, os.path.join(TOOLS, 'py2v_purity.py'), REPO_SRC, os.path.join(COQ, 'Gen')], ['Gen/PurityGen.v']),
     ('py2v_formulas', [sys.executable, os.path.join(TOOLS, 'py2v_formulas.py'), REPO_SRC, os.path.join(COQ, 'Gen')],
      ['Gen/FormulasGen.v']),
@@ -44,6 +46,11 @@ TRANSLATORS = [
     ('py2v_static', [sys.executable, os.path.join(TOOLS, 'py2v_static.py'), REPO_SRC, os.path.join(COQ, 'Gen')], ['Gen/AcquireGen.v']),
     ('py2v_adsmethods', [sys.executable, os.path.join(TOOLS, 'py2v_adsmethods.py'), REPO_SRC, os.path.join(COQ, 'Gen')], ['Gen/AdsMethodsGen.v']),
     ('py2v_tables', [sys.executable, os.path.join(TOOLS, 'py2v_tables.py'), REPO_SRC, os.path.join(COQ, 'Gen')], ['Gen/TablesGen.v']),
+    ('py2v_xl', [sys.executable, os.path.join(TOOLS, 'py2v_xl.py'), REPO_SRC, os.path.join(COQ, 'Gen')], ['Gen/XlGen.v']),
+    ('py2v_dbshape', [sys.executable, os.path.join(TOOLS, 'py2v_dbshape.py'), REPO_SRC, os.path.join(COQ, 'Gen')], ['Gen/DbShapeGen.v']),
+    ('py2v_fitglue', [sys.executable, os.path.join(TOOLS, 'py2v_fitglue.py'), REPO_SRC, os.path.join(COQ, 'Gen')], ['Gen/FitGlueGen.v']),
+    ('py2v_iastwrap', [sys.executable, os.path.join(TOOLS, 'py2v_iastwrap.py'), REPO_SRC, os.path.join(COQ, 'Gen')], ['Gen/IastWrapGen.v']),
+    ('py2v_psdmeso', [sys.executable, os.path.join(TOOLS, 'py2v_psdmeso.py'), REPO_SRC, os.path.join(COQ, 'Gen')], ['Gen/PsdMesoGen.v']),
 ]
 
 
